@@ -9,7 +9,9 @@
 EXTENDS Borromean, Ecdsa
 
 WlMaxKeys == 255
-WlTweaked(off, W) == LET T == PAdd(off, W) IN PMul(FromBytesBE(Sha256Hash(Ser33(T))), T)
+\* offline_i = -W is a legal key list entry (anyone can compute -W): offline_i + W is the point at infinity, the tweak step has
+\* nothing to hash and leaves it, and the ring key of that pair is just online_i
+WlTweaked(off, W) == LET T == PAdd(off, W) IN IF T = Inf THEN Inf ELSE PMul(FromBytesBE(Sha256Hash(Ser33(T))), T)
 WlRingKey(on, off, W) == PAdd(WlTweaked(off, W), on)
 WlRingKeys(ons, offs, W) == [i \in 1..Len(ons) |-> WlRingKey(ons[i], offs[i], W)]
 WlMsg(ons, offs, W) ==
